@@ -1,7 +1,7 @@
 (* C03 — ordered, gap-free, duplicate-free delivery. Property theorems only. *)
 From Coq Require Import List Arith.
 From RG Require Import Comp.Conv.
-From RG Require Comp.Core Proofs.CoreProofs.
+From RG Require Comp.Core Proofs.CoreProofsABC Proofs.CoreProofsDEF.
 Import ListNotations.
 
 (* Single-resource core, every schedule: in every reachable state, for every loaded subscriber, replaying the events
@@ -17,19 +17,22 @@ Theorem C03_events_in_flight_replay_to_cache :
 Proof. exact run_inv. Qed.
 Print Assumptions C03_events_in_flight_replay_to_cache.
 
-(* Integrated model (Comp/Core.v), every sequence of stimuli and grants, at every moment: what a client has rebuilt from the
-   frames sent to it - the snapshot of its response, then the change events in the order delivered - is exactly the
-   subscription's copy; together with the theorem above (the events still ahead of it replay to the cache's value) no event
-   is skipped, duplicated or reordered between the service and the client; before the response nothing is delivered. *)
+(* Integrated model (Comp/Core.v), every sequence of stimuli and grants, at every moment: while a connected client holds a
+   subscription, what it has rebuilt from the frames sent to it - the snapshot of the response that carried the resource,
+   then the change events in the order delivered - is exactly the copy of its current Subscription object, which has been
+   sent; together with the invariant below (the events still ahead of a subscription replay to the cache's value) no event is
+   skipped, duplicated or reordered between the service and the client. *)
 Theorem C03_core_delivered_events_rebuild_copy :
   forall (val upd : Type) (app : upd -> val -> val) (norm : upd -> val -> option upd) (d : val),
   (forall u v, norm u v = None -> app u v = v) ->
   (forall u v u', norm u v = Some u' -> app u' v = app u v) ->
   forall t ops c,
   let s := fst (Core.exec val upd app norm d t ops) in let outs := snd (Core.exec val upd app norm d t ops) in
-  Core.view val upd app c outs =
-    if Conv.sent val upd (Conv.subs val upd (Core.cv val upd s) c) then Some (Conv.sval val upd (Conv.subs val upd (Core.cv val upd s) c)) else None.
-Proof. exact CoreProofs.core_view. Qed.
+  Core.disc (Core.conns val upd s c) = false -> Core.no_underflow val upd app c outs ->
+  0 < Core.lcnt val (Core.client val upd app c outs) ->
+  exists i, Core.cur (Core.conns val upd s c) = Some i /\ Conv.sent val upd (Conv.subs val upd (Core.cv val upd s) i) = true /\
+            Core.lcopy val (Core.client val upd app c outs) = Some (Conv.sval val upd (Conv.subs val upd (Core.cv val upd s) i)).
+Proof. exact CoreProofsABC.core_client_copy. Qed.
 Print Assumptions C03_core_delivered_events_rebuild_copy.
 
 Theorem C03_core_inv :
@@ -37,5 +40,5 @@ Theorem C03_core_inv :
   (forall u v, norm u v = None -> app u v = v) ->
   (forall u v u', norm u v = Some u' -> app u' v = app u v) ->
   forall t ops, Inv val upd app (Core.cv val upd (fst (Core.exec val upd app norm d t ops))).
-Proof. exact CoreProofs.core_conv_inv. Qed.
+Proof. exact CoreProofsABC.core_conv_inv. Qed.
 Print Assumptions C03_core_inv.
